@@ -82,6 +82,8 @@ type Summary struct {
 	Findings           []Finding      `json:"findings"`
 	KnownSeen          map[string]int `json:"known_seen"`
 	WallS              float64        `json:"wall_s"`
+	ViolatingCases     int            `json:"violating_cases"`
+	DisagreeingCases   int            `json:"disagreeing_cases"`
 	Errors             []string       `json:"errors"`
 }
 
@@ -237,6 +239,7 @@ func cmdRun(args []string) int {
 
 	seen := map[string]bool{}
 	shrinkDriver := drivers[0]
+	nViol, nDis := 0, 0
 	for i, r := range results {
 		sum.Evaluations++
 		if r.e != "" {
@@ -278,10 +281,16 @@ func cmdRun(args []string) int {
 		if len(unknown) == 0 && r.v.Disagree == "" {
 			continue
 		}
-		if len(sum.Findings) >= 5 {
-			// enough replays written; still count
-			sum.Findings = append(sum.Findings, Finding{Case: i, Kind: "more", What: "further failing case (not shrunk)"})
-			continue
+		if len(unknown) > 0 {
+			nViol++
+			if nViol > 3 {
+				continue
+			}
+		} else {
+			nDis++
+			if nDis > 2 {
+				continue
+			}
 		}
 		// shrink on the first unknown violation's signature, else on "still disagrees"
 		in := cases[i]
@@ -324,6 +333,7 @@ func cmdRun(args []string) int {
 	for _, d := range drivers {
 		d.Close()
 	}
+	sum.ViolatingCases, sum.DisagreeingCases = nViol, nDis
 	sum.WallS = time.Since(start).Seconds()
 	if len(sum.Samples) == 0 && len(cases) > 0 {
 		sum.Samples = append(sum.Samples, cases[0])
